@@ -447,6 +447,7 @@ func main() {
 
 	partA(targets)
 	partAlign(targets)
+	partAlias(targets)
 	partB(targets, splitMul)
 	partC(targets, depth)
 	partD(kKey, kCust)
@@ -552,6 +553,73 @@ func partAlign(targets []*target) {
 		})
 	}
 	run.Set("alignment_sweep", "every target x lengths {rate-1, rate, rate+1, 2*rate, 2*rate+3, 3*rate-1, 4*rate+1} x address offsets 0..15 x {ComputeHash, Write+SumHash, reuse, 4 split points, block-then-odd-address}")
+}
+
+// (a'') buffers belong to whoever holds them: (i) the bytes handed to Write / ComputeHash are read
+// at call time - overwriting the caller's buffer afterwards must not change a later digest; (ii) a
+// digest returned by SumHash / ComputeHash is a value - it must not change when the hasher is used
+// again, and overwriting it must not disturb the hasher.
+func partAlias(targets []*target) {
+	for _, t := range targets {
+		lens := []int{1, 7, t.rate - 1, t.rate, t.rate + 1, 2*t.rate + 3}
+		ev.Par(len(lens), func(i int) {
+			L := lens[i]
+			fail := func(key, what string) {
+				noteViolation(t.name+":"+key, t)
+				run.Violation(t.name+":"+key, fmt.Sprintf("%s, message length %d: %s", t.id, L, what), replayJSON{Kind: "alias", Algo: t.name, Ops: []opJSON{{key, L, ""}}})
+			}
+			msg := append([]byte{}, pat1[:L]...)
+			want := t.ref(msg)
+			other := append([]byte{}, pat2[:L+3]...)
+			wantOther := t.ref(other)
+			// (i) caller overwrites its input after Write
+			h, err := t.mk()
+			if err != nil {
+				return
+			}
+			buf := append([]byte{}, msg...)
+			_, _ = h.Write(buf)
+			for k := range buf {
+				buf[k] ^= 0xff
+			}
+			if got := h.SumHash(); !bytes.Equal(got, want) {
+				fail("write-keeps-a-reference-to-the-callers-buffer", "Write(buf); overwrite buf; SumHash() is not the digest of the bytes that were written")
+			}
+			// (ii) returned digests are values
+			h2, _ := t.mk()
+			d1 := h2.ComputeHash(msg)
+			snap := append([]byte{}, d1...)
+			d2 := h2.ComputeHash(other)
+			if !bytes.Equal(d1, snap) || !bytes.Equal(d1, want) {
+				fail("returned-digest-changed-later", "the digest returned by ComputeHash changed when the hasher computed another one")
+			}
+			if !bytes.Equal(d2, wantOther) {
+				fail("computehash-second-call", "second ComputeHash on the same object differs from the reference")
+			}
+			for k := range d2 {
+				d2[k] ^= 0xa5 // the caller reuses a returned digest as scratch space
+			}
+			if d3 := h2.ComputeHash(msg); !bytes.Equal(d3, want) {
+				fail("disturbed-by-caller-overwriting-a-returned-digest", "ComputeHash differs after the caller overwrote a digest returned earlier")
+			}
+			h3, _ := t.mk()
+			h3.Reset()
+			_, _ = h3.Write(msg)
+			s1 := h3.SumHash()
+			snap1 := append([]byte{}, s1...)
+			h3.Reset()
+			_, _ = h3.Write(other)
+			s2 := h3.SumHash()
+			if !bytes.Equal(s1, snap1) || !bytes.Equal(s1, want) {
+				fail("returned-digest-changed-later", "the digest returned by SumHash changed when the hasher was reset and used again")
+			}
+			if !bytes.Equal(s2, wantOther) {
+				fail("sumhash-after-reset", "SumHash after Reset and a second message differs from the reference")
+			}
+			run.Add("evaluations", 6)
+			run.Distinct(fmt.Sprintf("alias/%s/%d", t.id, L))
+		})
+	}
 }
 
 func oneShot(t *target, msg []byte) {
